@@ -4,6 +4,8 @@ import (
 	"encoding/json"
 	"flag"
 	"fmt"
+	"go/constant"
+	"golang.org/x/tools/go/ssa"
 	"os"
 	"path/filepath"
 	"sort"
@@ -295,6 +297,41 @@ func cmdCheck(args []string) int {
 		if len(samples) < 12 && !o.Smoke {
 			samples = append(samples, map[string]interface{}{"function": o.Fn, "obligation": o.Name, "kind": o.Kind, "verdict": o.Result, "solver": o.Solver, "secs": round3(o.Secs), "clause": o.Text})
 		}
+	}
+	// pinned package-level strings (texts that assumed meanings are about)
+	for _, pn := range P.CS.Pins {
+		in := false
+		for _, t := range pn.Tags {
+			if t == *prop {
+				in = true
+			}
+		}
+		if !in {
+			continue
+		}
+		nObl++
+		got, why := "", ""
+		if pk := P.Pkgs[pn.Pkg]; pk == nil {
+			why = "package not loaded"
+		} else if g, ok := pk.Members[pn.Name].(*ssa.Global); !ok {
+			why = "no such package-level variable"
+		} else if !P.constGlobals[g] {
+			why = "the variable is assigned outside its declaration"
+		} else if k, ok := P.globalInit[g].(*ssa.Const); !ok || k.Value == nil || k.Value.Kind() != constant.String {
+			why = "the initial value is not a string constant"
+		} else {
+			got = constant.StringVal(k.Value)
+			if got != pn.Value {
+				why = fmt.Sprintf("initial value is %q", got)
+			}
+		}
+		if why == "" {
+			nDis++
+			continue
+		}
+		failed = append(failed, &Obligation{Fn: pn.Pkg, Name: "pin:" + pn.Name, Kind: "pin", Pos: fmt.Sprintf("%s:%d", pn.File, pn.Line), Result: "changed",
+			Text:   fmt.Sprintf("%s == %q", pn.Name, pn.Value),
+			Output: "the assumed meaning of this text (axioms / documented format) was stated for the pinned value; " + why})
 	}
 	for _, k := range known {
 		fmt.Println(k)
